@@ -39,7 +39,7 @@ def check_query(ctx, al, G, m, u, v, start, end):
     ctx.case["query"] = q
     ids = m.ids()
     try:
-        res = al.time_respecting_paths(G, u, v, start, end, 1)
+        res = _paths.trp(al, ctx.rng, G, u, v, start, end, 1)
     except Exception as ex:
         if raised_in_library(ex):
             ctx.violation("raised", dict(q, exception=repr(ex)))
@@ -110,7 +110,7 @@ def _graph_queries_body(ctx, dn, G, m, nodes, exhaustive):
     # sample < 1 is a subset of the full answer
     u = rng.choice(nodes)
     try:
-        full = flat(al.time_respecting_paths(G, u, None, None, None, 1))
+        full = flat(_paths.trp(al, ctx.rng, G, u, None, None, None, 1))
         part = flat(al.time_respecting_paths(G, u, None, None, None, 0.5))
         ctx.expect("sample<1:subset", part <= full, True, dict(u=u, extra=sorted(part - full)[:3]))
     except Exception as ex:
@@ -124,11 +124,11 @@ def _graph_queries_body(ctx, dn, G, m, nodes, exhaustive):
         q = dict(fn="all_time_respecting_paths", start=s, end=e, min_t=mt)
         ctx.case["query"] = q
         try:
-            res = al.all_time_respecting_paths(G, s, e, 1, mt)
+            res = _paths.atrp(al, ctx.rng, G, s, e, 1, mt)
             exp = {}
             srcs = list(m.nodes) if mt is None else [n for n in m.nodes if pathsref_has(m, n, mt)]
             for x in srcs:
-                r = al.time_respecting_paths(G, x, None, s, e, 1)
+                r = _paths.trp(al, ctx.rng, G, x, None, s, e, 1)
                 if r:
                     for k, pl in r.items():
                         exp[(x, k[-1])] = pl
